@@ -522,6 +522,56 @@ void compare()
   });
 }
 
+// ---------------------------------------------------------------- comparison of elements whose == is not bytewise
+// A trivial struct with padding; the two vectors live in blocks pre-filled with different bytes (0x00 / 0xFF), the
+// fields are then written one by one, so equal elements differ in their padding bytes.  == / != / < / > / <= / >= must
+// agree with element-wise comparison through the element's own operators (a bytewise comparison would not).
+struct padded
+{
+  char c;
+  int i;
+};
+static_assert(sizeof(padded) > sizeof(char) + sizeof(int), "padded has padding bytes");
+inline bool operator==(padded const &a, padded const &b) { return a.c == b.c && a.i == b.i; }
+inline bool operator<(padded const &a, padded const &b) { return a.c < b.c || (a.c == b.c && a.i < b.i); }
+
+void compare_padded()
+{
+  unsigned const n1{static_cast<unsigned>(verif_param("n"))}, n2{static_cast<unsigned>(verif_param("n2"))};
+  std::allocator<padded> a{};
+  padded *const p1{a.allocate(n1)};
+  padded *const p2{a.allocate(n2)};
+  __builtin_memset(static_cast<void *>(p1), 0x00, n1 * sizeof(padded));
+  __builtin_memset(static_cast<void *>(p2), 0xFF, n2 * sizeof(padded));
+  char c1[4], c2[4];
+  int i1[4], i2[4];
+  for (unsigned k = 0; k < n1; ++k) { c1[k] = static_cast<char>(verif_u8("c1")); i1[k] = static_cast<int>(verif_u32("i1")); p1[k].c = c1[k]; p1[k].i = i1[k]; }
+  for (unsigned k = 0; k < n2; ++k) { c2[k] = static_cast<char>(verif_u8("c2")); i2[k] = static_cast<int>(verif_u32("i2")); p2[k].c = c2[k]; p2[k].i = i2[k]; }
+  rv<padded> const v1{rep_t<padded>{a, p1, p1 + n1, p1 + n1}};
+  rv<padded> const v2{rep_t<padded>{a, p2, p2 + n2, p2 + n2}};
+  // reference on the field values, not on the objects
+  bool eq{n1 == n2};
+  for (unsigned k = 0; k < n1 && k < n2; ++k) eq = eq & (c1[k] == c2[k]) & (i1[k] == i2[k]);
+  bool lt{false}, gt{false}, decided{false};
+  for (unsigned k = 0; k < n1 && k < n2; ++k)
+  {
+    bool const l{c1[k] < c2[k] || (c1[k] == c2[k] && i1[k] < i2[k])};
+    bool const g{c2[k] < c1[k] || (c1[k] == c2[k] && i2[k] < i1[k])};
+    if (!decided && l) { lt = true; decided = true; }
+    if (!decided && g) { gt = true; decided = true; }
+  }
+  if (!decided) { lt = n1 < n2; gt = n2 < n1; }
+  verif_out("eq", eq);
+  verif_out("lt", lt);
+  verif_assert((v1 == v2) == eq, "padded elements: operator== is element-wise equality, padding bytes do not matter");
+  verif_assert((v1 != v2) == !eq, "padded elements: operator!= is its negation");
+  verif_assert((v1 < v2) == lt, "padded elements: operator< is lexicographic over the elements' own <");
+  verif_assert((v1 > v2) == gt, "padded elements: operator> is lexicographic");
+  verif_assert((v1 <= v2) == !gt, "padded elements: operator<= is lexicographic");
+  verif_assert((v1 >= v2) == !lt, "padded elements: operator>= is lexicographic");
+  verif_reach("compare_padded-end");
+}
+
 // ---------------------------------------------------------------- constructors (public API only)
 template <typename T>
 void construct()
@@ -711,6 +761,7 @@ BOTH(compare, compare)
 BOTH(construct, construct)
 BOTH(hist2, hist2)
 BOTH(dynarray, dynarray)
+VERIF_HARNESS(h_compare_padded) { compare_padded(); }
 BOTH(alias_paths, alias_paths)
 
 //@harness h_push_back_{T} for T in i32,u8 param cap=0..4 param n=0..4 if n<=cap tier=quick leak=1
@@ -728,6 +779,7 @@ BOTH(alias_paths, alias_paths)
 //@harness h_compare_{T} for T in i32,u8 param cap=0..3 param n=0..3 param cap2=0..3 param n2=0..3 if (n<=cap)&(n2<=cap2)&((cap==n)|(cap==3))&((cap2==n2)|(cap2==3)) tier=quick leak=1
 //@harness h_construct_{T} for T in i32,u8 param how=0..4 tier=quick leak=1
 //@harness h_dynarray_{T} for T in i32,u8 tier=quick leak=1
+//@harness h_compare_padded param n=0..2 param n2=0..2 tier=quick leak=1
 //@harness h_alias_paths_{T} for T in i32,u8 param realloc=0..1 tier=quick leak=1
 //@harness h_hist2_{T} for T in i32,u8 param n0=0..2 param steps=2 param op1=0..7 param op2=8 if (n0>0)|((op1!=1)&(op1!=4)) tier=quick leak=1 paths=60000
 //@harness h_hist2_{T} for T in i32 param n0=0 param steps=3 param op1=0..7 param op2=8 if (op1!=1)&(op1!=4) tier=quick leak=1 paths=60000
